@@ -41,6 +41,8 @@ DECOS = [("emit", "emit.1"), ("trace", "trace.2"), ("dbg", "debug.stack"), ("adv
 def isolated(c):
     """GEN_Deco!Isolated; at top level a following tail operation is a neighbour of the body's last element"""
     b = list(c["body"]) + (["O"] if c["wrap"] == "top" and c["tail"] == "O" else [])
+    if c["wrap"] in ("execloc", "callloc"):        # GEN_Deco!Framed: prologue / epilogue operations surround the body
+        b = ["O"] + b + ["O"]
 
     def reach(i, d):
         while 0 <= i < len(b) and b[i] == "D":
@@ -75,7 +77,9 @@ def deco_programs(ck, thorough):
                 "exec": "proc.f\n %s\nend\nbegin\n neg exec.f %s\nend\n" % (body, t),
                 "branch": "begin\n push.1 if.true\n %s\n else\n neg\n end %s\nend\n" % (body, t),
                 "loop": "begin\n push.0 while.true\n %s\n push.0\n end %s\nend\n" % (body, t),
-                "call": "proc.f\n %s\nend\nbegin\n call.f %s\nend\n" % (body, t)}[w]
+                "call": "proc.f\n %s\nend\nbegin\n call.f %s\nend\n" % (body, t),
+                "execloc": "proc.f.2\n %s\nend\nbegin\n neg exec.f %s\nend\n" % (body, t),
+                "callloc": "proc.f.3\n %s\nend\nbegin\n call.f %s\nend\n" % (body, t)}[w]
     progs, groups = [], {}
     for gi, c in enumerate(cases):
         # positions of N / O elements must not shift between a body and its erasure: render the erasure from the same indices
